@@ -93,6 +93,31 @@ pub fn run(ctx: &mut Ctx) -> Report {
 			signers.push(Signer { alg, name, key, remote: rem, cert, p, origin, truth_spki: None });
 		}
 	}
+	// remote keys whose public key starts in a way that looks like something else (the octet after
+	// the 04 of an uncompressed point being a length that fits, an ASN.1 tag, zero): what the
+	// artefact publishes is the key that signs
+	for alg in keys::build_algs() {
+		let name = alg_name(alg).to_string();
+		if name != "ecdsaP256" && name != "ecdsaP384" {
+			continue;
+		}
+		let rest = if name == "ecdsaP256" { 63u8 } else { 95 };
+		for second in [rest, 0x00, 0x04, 0x30, 0x03, rest - 1, rest + 1] {
+			let Some(r) = keys::remote_key_where(alg, &s.ctx.rsa_fixture, 6000, |p| p.len() > 2 && p[1] == second) else { continue };
+			let keys::Remote { key_pair, log, fail_at, pkcs8 } = r;
+			let placeholder = keys::remote_key(&PKCS_ED25519, &s.ctx.rsa_fixture).key_pair;
+			let truth = openssl_spki_of_pkcs8(&pkcs8);
+			let key = Arc::new(key_pair);
+			let mut p = PCert::empty();
+			p.serial = Some(vec![3]);
+			p.dn = Dn(vec![(DnT::Cn, DnV::Utf8(format!("issuer {} remote, point starting 04 {:02x}", name, second)))]);
+			p.ca = Ca::Ca(None);
+			p.kid = if cfg!(feature = "nocrypto") { Kid::Pre(vec![7; 20]) } else { Kid::Sha256 };
+			let Ok(Ok(cert)) = std::panic::catch_unwind(std::panic::AssertUnwindSafe(|| p.real().unwrap().self_signed(&key))) else { continue };
+			s.rep.count("remote_keys_with_chosen_first_octets");
+			signers.push(Signer { alg, name: name.clone(), key, remote: Some(keys::Remote { key_pair: placeholder, log, fail_at, pkcs8 }), cert, p, origin: format!("remote:04{:02x}", second), truth_spki: truth });
+		}
+	}
 	// the same keys after a trip through every loading entry point: a loaded key must sign
 	// under the algorithm it reports, verifiably under the public key OpenSSL derives from
 	// the same private key
@@ -158,7 +183,7 @@ pub fn run(ctx: &mut Ctx) -> Report {
 	}
 	for sg in &signers {
 		// (the larger RSA fixtures sign slowly: two rounds each)
-		let n = if sg.p.dn.0.iter().any(|(_, v)| matches!(v, DnV::Utf8(t) if t.contains("/rsa"))) { n.min(2) } else { n };
+		let n = if sg.p.dn.0.iter().any(|(_, v)| matches!(v, DnV::Utf8(t) if t.contains("/rsa") || t.contains("point starting"))) { n.min(2) } else { n };
 		for round in 0..n {
 			// --- certificate (self-signed on even rounds with this key, else issued to another key)
 			let mut p = gen_params(&mut s.rng);
@@ -409,6 +434,37 @@ pub fn run(ctx: &mut Ctx) -> Report {
 			if outcomes != want {
 				s.rep.violate("C01:signer-failure-yields-error-only-there", "a failing signer call must yield an error for exactly that artefact and no artefact", line);
 			}
+		}
+	}
+	// --- the pair the command-line tool writes, after one run and after further runs into the
+	// same directory: the end-entity certificate on disk carries a signature that verifies under
+	// the CA certificate on disk next to it, and the CA certificate under its own key
+	#[cfg(not(feature = "nocrypto"))]
+	if let Ok(cli) = std::env::var("VERIF_CLI") {
+		if std::path::Path::new(&cli).exists() {
+			for (ri, seq) in [vec!["--ecdsa-p256"], vec!["--ecdsa-p256", "--ecdsa-p256"], vec!["--ed25519", "--ecdsa-p384", "--ed25519"]].iter().enumerate() {
+				let dir = format!("/verif/.cache/c01_cli_{}_{}", std::process::id(), ri);
+				let _ = std::fs::remove_dir_all(&dir);
+				for (step, flag) in seq.iter().enumerate() {
+					let ok = std::process::Command::new(&cli).args(["-o", &dir, flag, "--san", "pair.example.com"]).env("RUST_BACKTRACE", "0").output().map(|o| o.status.success()).unwrap_or(false);
+					s.rep.case(&format!("command-line pair after runs {:?}", &seq[..=step]), true);
+					if !ok {
+						continue;
+					}
+					let read = |f: &str| std::fs::read_to_string(format!("{}/{}", dir, f)).ok().and_then(|t| pem::parse(t).ok()).map(|p| p.contents().to_vec());
+					let (Some(ca), Some(ee)) = (read("root-ca.pem"), read("cert.pem")) else { continue };
+					let ca_x = openssl::x509::X509::from_der(&ca).ok();
+					let ca_pk = ca_x.as_ref().and_then(|c| c.public_key().ok());
+					let ee_ok = ca_pk.as_ref().and_then(|pk| openssl::x509::X509::from_der(&ee).ok().map(|c| c.verify(pk).unwrap_or(false)));
+					let ca_ok = ca_pk.as_ref().and_then(|pk| ca_x.as_ref().map(|c| c.verify(pk).unwrap_or(false)));
+					s.rep.count("cli_pairs_verified");
+					if ee_ok != Some(true) || ca_ok != Some(true) {
+						s.rep.violate("C01:cli-pair-signature", "the end-entity certificate the tool left on disk does not verify under the CA certificate next to it (or the CA certificate not under its own key)", format!("runs into one directory: {:?}\nroot-ca.pem: {}\ncert.pem: {}\nend-entity under CA: {:?}, CA under itself: {:?}", &seq[..=step], hex(&ca), hex(&ee), ee_ok, ca_ok));
+					}
+				}
+				let _ = std::fs::remove_dir_all(&dir);
+			}
+			s.rep.exhaustive.push("the command-line tool's pair after one, two and three runs into one directory: signatures verified with OpenSSL from the files on disk".into());
 		}
 	}
 	let req = s.drv.requests;
